@@ -4,9 +4,13 @@ Exhaustive enumeration (E3) of operator chains (select / apply / assign /
 filter / batch / sink) over a menu of operator instances that covers every key
 shape (single, tuple, nested path, index, dict/kwargs, SELF, SKIP first /
 middle / last, literal) and callables returning a scalar, a tuple, a dict;
+and every multi-entry (2-3) dict-form / tuple-form key spec over the position
+kinds top-level / nested-existing / nested-fresh;
 x every stream of <= 3 records from a 3-record menu; run on the real
 `TreeTransform(...).make().iterate(stream)` (and `make()(record)`).
-Oracle: vmc/oracles/pipeline_ref.py (plain-Python interpreter).
+Oracle: vmc/oracles/pipeline_ref.py (plain-Python interpreter); the caller's
+records are deep-compared with a snapshot, and object identity is checked both
+ways (untouched sub-trees shared, updated sub-trees not the caller's objects).
 """
 import gc
 import itertools as itt
@@ -53,6 +57,11 @@ def fd(*a, **k):
   return {'p': 'p' + f1(*a, **k), 'q': 'q' + f1(*a, **k)}
 
 
+def fd3(*a, **k):
+  return {'p': 'p' + f1(*a, **k), 'q': 'q' + f1(*a, **k),
+          'r': 'r' + f1(*a, **k)}
+
+
 def pred(*a, **k):
   """Keeps records whose first selected value is an odd int / a flat dict /
   a 2-element list."""
@@ -72,7 +81,7 @@ def pred2(x, y):
   return x + y < 6
 
 
-FNS = {'f1': f1, 'f2': f2, 'f3': f3, 'fd': fd, 'pred': pred, 'pred2': pred2}
+FNS = {'f1': f1, 'f2': f2, 'f3': f3, 'fd': fd, 'fd3': fd3, 'pred': pred, 'pred2': pred2}
 
 
 class RecSink:
@@ -93,7 +102,7 @@ def make_record(i):
   if i == 0:
     return {'a': 1, 'b': 2}
   if i == 1:
-    return {'a': 4, 'b': 5, 'c': {'d': [10, 20]}}
+    return {'a': 4, 'b': 5, 'c': {'d': [10, 20], 'e': {'g': 3}}}
   return [7, [8, 9]]
 
 
@@ -185,6 +194,60 @@ MENU = [
     _op('sink(S,(a,b))', 'sink', inp=[P('a'), P('b')]),
     _op('sink(S,{x:a})', 'sink', inp={'x': P('a')}),
 ]
+
+
+# Multi-entry key forms.  Every position of a 2- or 3-entry key spec is one of
+#   T  a top-level key                           x / y / z
+#   E  a nested path into a container that the nested-dict record already has
+#                                                c.n / c.e.h / c.d.[2]
+#   F  a nested path into a container nobody has n.m / n.k / m.k  (a later F
+#      lands in the container an earlier F of the same spec has just made)
+# (on the flat-dict record E is fresh too; on the bare list all are errors).
+POSITION = {
+    'T': (P('x'), P('y'), P('z')),
+    'E': (P('c', 'n'), P('c', 'e', 'h'), P('c', 'd', I(2))),
+    'F': (P('n', 'm'), P('n', 'k'), P('m', 'k')),
+}
+RESULT = (P('p'), P('q'), P('r'))
+
+
+def path_name(path):
+  return '.'.join('[%d]' % s if isinstance(s, I) else str(s) for s in path)
+
+
+def _multi_entry_ops():
+  ops = []
+  for n in (2, 3):
+    fn = 'fd' if n == 2 else 'fd3'
+    for shape in itt.product('TEF', repeat=n):
+      keys = [POSITION[c][j] for j, c in enumerate(shape)]
+      spec = ','.join('%s:%s' % (path_name(k), path_name(r))
+                      for k, r in zip(keys, RESULT))
+      # dict-form assign keys: {record path: path in fn's dict result}
+      ops.append(_op('assign({%s},%s,a)' % (spec, fn), 'assign', fn=fn,
+                     inp=P('a'), out=dict(zip(keys, RESULT))))
+      # dict-form output keys of apply (fresh record: E is as fresh as F)
+      if 'E' not in shape:
+        ops.append(_op('apply(%s,a,{%s})' % (fn, spec), 'apply', fn=fn,
+                       inp=P('a'), out=dict(zip(keys, RESULT))))
+      # tuple-form assign keys (set one by one)
+      if n == 2:
+        ops.append(_op('assign((%s),f2,(a,b))' % ','.join(
+            path_name(k) for k in keys), 'assign', fn='f2',
+                       inp=[P('a'), P('b')], out=list(keys)))
+  # the same on the bare-list record: append / nested-existing positions
+  for keys in ([P(I(2)), P(I(1), I(2))], [P(I(1), I(0)), P(I(1), I(2))],
+               [P(I(1), I(2)), P(I(2)), P(I(1), I(0))]):
+    fn = 'fd' if len(keys) == 2 else 'fd3'
+    spec = ','.join('%s:%s' % (path_name(k), path_name(r))
+                    for k, r in zip(keys, RESULT))
+    ops.append(_op('assign({%s},%s,[0])' % (spec, fn), 'assign', fn=fn,
+                   inp=P(I(0)), out=dict(zip(keys, RESULT))))
+  return ops
+
+
+_SINGLE = {o['name'] for o in MENU}
+MENU += [o for o in _multi_entry_ops() if o['name'] not in _SINGLE]
 BY_NAME = {o['name']: o for o in MENU}
 assert len(BY_NAME) == len(MENU)
 
@@ -198,14 +261,15 @@ REDUCED = [
     'assign(x,f1,a)', 'assign(y,f1,b)', 'assign((x,y),f2,(a,b))',
     'assign(a,f1,b)', 'assign(c.n,f1,a)', 'assign({u:c.d})',
     'assign(SELF,f1,a)', 'assign(f1)!',
+    'assign({x:p,c.e.h:q},fd,a)', 'assign({c.n:p,c.e.h:q,c.d.[2]:r},fd3,a)',
     'filter(pred,a)', 'filter(pred)',
     'batch(2)', 'sink(S)', 'sink(S,a)',
 ]
 SMALL = [
     'select((a,b))', 'select(c.d)', 'apply(f1,a,x)', 'apply(f2,a,(x,SKIP))',
     'apply(f2,(a,b),(x,y))', 'assign(x,f1,a)', 'assign(y,f1,b)',
-    'assign(c.n,f1,a)', 'filter(pred,a)', 'filter(pred)', 'batch(2)',
-    'sink(S,a)',
+    'assign(c.n,f1,a)', 'assign({x:p,c.e.h:q},fd,a)', 'filter(pred,a)',
+    'filter(pred)', 'batch(2)', 'sink(S,a)',
 ]
 assert all(n in BY_NAME for n in REDUCED + SMALL)
 
@@ -226,7 +290,8 @@ def lib_key(k):
   if isinstance(k, Lit):
     return T.Key.Literal(k.value)
   if isinstance(k, dict):
-    return {n: lib_key(v) for n, v in k.items()}
+    return {(lib_key(n) if isinstance(n, tuple) else n): lib_key(v)
+            for n, v in k.items()}
   if isinstance(k, list):
     return tuple(lib_key(e) for e in k)
   steps = tuple(T.Key.Index(int(s)) if isinstance(s, I) else s for s in k)
@@ -360,6 +425,44 @@ def name_run_difference(program, records, got, err):
   return 'unexplained:' + '+'.join(sorted({o['kind'] for o in program}))
 
 
+def _key_form(op):
+  out = op.get('out', ())
+  keys = (list(out.keys()) if isinstance(out, dict) else
+          list(out) if isinstance(out, list) else [out])
+  form = ('dict-keys' if isinstance(out, dict) else
+          'tuple-keys' if isinstance(out, list) else 'one-key')
+  nested = any(isinstance(k, tuple) and len(k) > 1 for k in keys)
+  return '%s:%s:%s:%s' % (op['kind'], form, 'multi' if len(keys) > 1 else '1',
+                          'nested' if nested else 'flat')
+
+
+def name_input_damage(program, stream_ids):
+  """Names a 'caller's objects written / aliased' failure after the operator
+  form that shows it on its own (naming only; never a verdict)."""
+  writers = [o for o in program if o['kind'] == 'assign']
+  culprits = set()
+  for op in writers:
+    records = [make_record(i) for i in stream_ids]
+    snaps = [ref.snapshot(r) for r in records]
+    ids = {}
+    for r in records:
+      ref.container_ids(r, ids)
+    try:
+      got = list(build_impl([op], {}).iterate(list(records)))
+      exp = pref.run([op], records)
+      if exp.error is None and len(got) == len(exp.outputs) and any(
+          ref.alias_violations(g, e, ids) for g, e in zip(got, exp.outputs)):
+        culprits.add(_key_form(op))
+    except Exception:  # pylint: disable=broad-except
+      pass
+    if not all(ref.same(r, s) for r, s in zip(records, snaps)):
+      culprits.add(_key_form(op))
+  forms = culprits or {_key_form(o) for o in writers}
+  if forms:
+    return '+'.join(sorted(forms))
+  return 'ops:' + '+'.join(sorted({o['kind'] for o in program}))
+
+
 # ---- one program -------------------------------------------------------------
 
 def prog_names(program):
@@ -427,11 +530,13 @@ def check_run(st, program, stream_ids, call_too=True, built=None):
          'records': snaps, 'got': got, 'error': err,
          'expected': exp.outputs, 'reference_error': exp.error}
 
-  def viol(what, extra=None, output_differs=True):
+  def viol(what, extra=None, output_differs=True, damage=False):
     # only a difference in outputs / errors can be due to a routing deviation
     if output_differs:
       label = name_run_difference(program, [ref.snapshot(s) for s in snaps],
                                   got, err)
+    elif damage:
+      label = name_input_damage(program, stream_ids)
     else:
       label = 'ops:' + '+'.join(sorted({o['kind'] for o in program}))
     st.violation(f'C08:run:{what}:{label}', dict(det, **(extra or {})),
@@ -450,6 +555,13 @@ def check_run(st, program, stream_ids, call_too=True, built=None):
       if bad:
         viol('untouched-input-subtree-copied', {'at': [repr(p) for p in bad]},
              output_differs=False)
+      # ... and an updated sub-tree must not be one of the caller's objects
+      leak = [p for g, e in zip(got, exp.outputs)
+              for p in ref.alias_violations(g, e, in_ids, path=('out',))]
+      if leak:
+        viol('updated-subtree-is-callers-object',
+             {'at': [repr(p) for p in leak]}, output_differs=False,
+             damage=True)
     # sinks: every record once, in order, then closed exactly once
     if err is None:
       gc.collect() if any(s.closed != 1 for s in sinks.values()) else None
@@ -474,15 +586,25 @@ def check_run(st, program, stream_ids, call_too=True, built=None):
       viol('wrong-output-before-error')
   if not all(ref.same(r, s) for r, s in zip(records, snaps)):
     viol('mutates-caller-input', {'records_after': records},
-         output_differs=False)
+         output_differs=False, damage=True)
   # the single-record call interface
   if (call_too and len(stream_ids) == 1 and exp.error is None and
       len(exp.outputs) == 1 and err is None):
     st.case(None)
     rec = make_record(stream_ids[0])
+    rec_ids = ref.container_ids(rec)
+    exp1 = pref.run(program, [rec]).outputs[0]
     sinks2 = {i: RecSink() for i in sinks}
     try:
-      one = clean(build_impl(program, sinks2)(rec))
+      raw = build_impl(program, sinks2)(rec)
+      one = clean(raw)
+      if not ref.same(rec, snaps[0]):
+        st.violation('C08:call:mutates-caller-input:' + name_input_damage(
+            program, stream_ids), dict(det, record_after=rec), replay=replay)
+      elif ref.same(one, exp1) and ref.alias_violations(raw, exp1, rec_ids):
+        st.violation('C08:call:updated-subtree-is-callers-object:' +
+                     name_input_damage(program, stream_ids),
+                     dict(det, call_result=one), replay=replay)
       if not ref.same(one, exp.outputs[0]):
         st.violation('C08:call:wrong-output:' + name_run_difference(
             program, [make_record(stream_ids[0])], [one], None),
@@ -598,7 +720,10 @@ def _unit(progs):
 def run(ctx):
   quick = ctx.quick
   full = [o['name'] for o in MENU]
-  plan = [(full, 2), (REDUCED, 3)] if quick else [(full, 3), (SMALL, 4)]
+  # one instance per key shape + the multi-entry representatives of REDUCED
+  shapes = [n for n in full if n in _SINGLE or n in REDUCED]
+  plan = [(full, 2), (REDUCED, 3)] if quick else [
+      (full, 2), (shapes, 3), (SMALL, 4)]
   seen, progs = set(), []
   for menu, n in plan:
     for p in programs(menu, n):
@@ -606,17 +731,32 @@ def run(ctx):
         seen.add(p)
         progs.append(p)
   ctx.rule = (
-      'operator chains: every chain of length <= %d over the full menu of %d '
-      'operator instances and every chain of length <= %d over the reduced '
-      'menu of %d instances (a chain is extended only while the reference '
+      'operator chains: %s (a chain is extended only while the reference '
       'accepts it: a rejected prefix decides the verdict); each accepted chain '
-      'x every stream of <= 3 records from {flat dict, nested dict with list, '
-      'bare list} (%d streams) through make().iterate(stream), single-record '
-      'streams also through make()(record). Plus assign(fn_batch_size=f, '
+      'x every stream of <= 3 records from {flat dict, dict with nested dict '
+      '+ list + dict-in-dict, bare list} (%d streams) through '
+      'make().iterate(stream), single-record streams also through '
+      'make()(record). The menu holds, besides one instance per single key '
+      'shape, every 2- and 3-entry dict-form assign key spec whose positions '
+      'are each top-level / nested-into-an-existing-container / nested-fresh '
+      '(9 + 27), the 2-entry tuple-form ones (9), the dict-form apply output '
+      'keys over top-level / nested-fresh (4 + 8) and 3 dict-form specs into '
+      'the bare list. After every run: outputs = reference, caller records '
+      'deep-equal their snapshot, untouched sub-trees are shared, updated '
+      'sub-trees are none of the caller\'s objects. Plus assign(fn_batch_size=f, '
       'batch_size=b) over n <= %d batches of b rows, b in 1..3, f in 1..3b '
       '(outputs aligned with the input batches). Menu: %s. Cases distinct by '
       'construction; non-trivial = non-empty stream.' % (
-          plan[0][1], len(full), plan[1][1], len(plan[1][0]), len(STREAMS),
+          ' and '.join('every chain of length <= %d over %s' % (n, what)
+                       for (_, n), what in zip(plan, [
+                           'the full menu of %d operator instances' % len(full)
+                       ] + ([
+                           'the reduced menu of %d instances' % len(REDUCED)
+                       ] if quick else [
+                           'the %d instances that are one per key shape plus '
+                           'two multi-entry ones' % len(shapes),
+                           'the small menu of %d instances' % len(SMALL)]))),
+          len(STREAMS),
           4 if quick else 6, ', '.join(full)))
   ctx.assumptions += [
       'callables are pure string-building functions of their arguments; the '
